@@ -234,10 +234,17 @@ int libxmp_period_to_bend(struct context_data *ctx, double p, int n, double adj)
 		return 100 * (8 * (((240 - n) << 4) - p));
 	case PERIOD_CSPD:
 		d = libxmp_note_to_period(ctx, n, 0, adj);
+		if (d < 0.1) {
+			return 0;
+		}
 		return libxmp_round(100.0 * (1536.0 / M_LN2) * log(p / d));
 	default:
 		/* Amiga */
 		d = libxmp_note_to_period(ctx, n, 0, adj);
+		/* no period for this note (e.g. outside the Protracker table) */
+		if (d < 0.1) {
+			return 0;
+		}
 		return libxmp_round(100.0 * (1536.0 / M_LN2) * log(d / p));
 	}
 }
